@@ -1,12 +1,10 @@
 package main
 
 import (
-	"crypto/md5"
-	"time"
-	"sync"
 	"archive/tar"
 	"bytes"
 	"compress/gzip"
+	"crypto/md5"
 	"encoding/hex"
 	"encoding/json"
 	"fmt"
@@ -19,6 +17,8 @@ import (
 	"runtime/debug"
 	"sort"
 	"strings"
+	"sync"
+	"time"
 
 	"github.com/akrylysov/pogreb"
 	"github.com/akrylysov/pogreb/fs"
@@ -270,6 +270,23 @@ func genC14(r *rng, tier string, res *Result) {
 				Program: []string{"open (fs.OSMMap)", "put big <8 MiB>", "goroutine: loop Get(big) / GetAppend(big, <prefix>)", "main: " + what}})
 			break
 		}
+	}
+	// a scan in progress when compaction removes (fs.OSMMap: unmaps) the segment its queued items were
+	// read from, or when the database is closed: whatever Next hands out afterwards is the caller's,
+	// readable, and something that was stored
+	for i := 0; i < scale(tier, 6, 40); i++ {
+		useClose := i%3 == 2
+		if fault := c10ScanAcrossUnmap(r, filepath.Join(tmp, fmt.Sprintf("scan%d", i)), useClose); fault != "" {
+			what := "Compact (the segment is removed and unmapped)"
+			if useClose {
+				what = "Close"
+			}
+			res.Findings = append(res.Findings, &Finding{Kind: "spec", Case: fmt.Sprintf("C14/scan-across-unmapping/%d", i), Cmd: "Next after " + what + " on fs.OSMMap",
+				Impl: []string{clip(fault)}, Expected: []string{"a pair that was stored, an error, or ErrIterationDone; no memory fault"},
+				Program: []string{"open (fs.OSMMap, 1 KiB segments)", "10 x put", "overwrite half (garbage)", "it := Items(); it.Next()", what, "it.Next() ..."}})
+			break
+		}
+		res.Tags["scans_across_unmapping"]++
 	}
 	res.SpecChecked = res.Tags["slices_kept"]
 	res.Samples = append(res.Samples, []byte(`"60-160 calls keeping every returned slice; then overwrite all, Compact, delete all, Compact, Close; all kept slices compared with private copies under SetPanicOnFault"`))
@@ -701,9 +718,9 @@ func c19OnOS(r *rng, tier string, res *Result) {
 	}
 	defer os.RemoveAll(tmp)
 	hdrs := [][]byte{
-		{1, 0, 0, 0, 0, 0x10},             // put, 256 MiB value
-		{1, 0, 0, 0, 0, 0x90},             // delete bit set, 256 MiB
-		{0xff, 0xff, 0, 0, 0xc0, 0x12},    // 65535-byte key, 300 MiB value
+		{1, 0, 0, 0, 0, 0x10},          // put, 256 MiB value
+		{1, 0, 0, 0, 0, 0x90},          // delete bit set, 256 MiB
+		{0xff, 0xff, 0, 0, 0xc0, 0x12}, // 65535-byte key, 300 MiB value
 	}
 	for hi, hdr := range hdrs {
 		for _, fsc := range []struct {
@@ -1266,4 +1283,159 @@ func min(a, b int) int {
 		return a
 	}
 	return b
+}
+
+// c15LegacyNames: a directory whose oldest segment still has the name pogreb 0.9.x gave it
+// (`00000.psg` with side file `00000.psg.pmt`: no sequence id in the name; parseSegmentName reads it
+// as sequence id 0) is part of "all histories of ... clean restarts" for anybody who upgraded. After
+// Compact has compacted that segment, it and ITS side file are gone, and every remaining file belongs
+// to a live segment, the index, the database metadata or the lock.
+func c15LegacyNames(r *rng, tier string, res *Result) {
+	for round := 0; round < scale(tier, 2, 8); round++ {
+		t := tfs.New()
+		mk := func() *pogreb.Options {
+			o := &pogreb.Options{FileSystem: t}
+			pogreb.VerifSetThresholds(o, 1024, 512, math.Float32frombits(fragBits(0.3)))
+			return o
+		}
+		name := fmt.Sprintf("C15/legacy-segment-name/%d", round)
+		var prog []string
+		fail := func(cmd, what string) {
+			res.Findings = append(res.Findings, &Finding{Kind: "spec", Case: name, Cmd: cmd, Impl: []string{what},
+				Expected: []string{"compacted segments are gone with their side files; every remaining file belongs to a live segment, the index, the metadata or the lock; the contents are kept"}, Program: prog})
+		}
+		db, err := pogreb.Open("lg", mk())
+		if err != nil {
+			return
+		}
+		ref := map[string]string{}
+		nk := 20 + r.intn(20)
+		put := func() bool {
+			for i := 0; i < nk; i++ {
+				k, v := fmt.Sprintf("legacy-%02d", i), string(r.bytes(20+r.intn(30)))
+				if err := db.Put([]byte(k), []byte(v)); err != nil {
+					fail("put", err.Error())
+					return false
+				}
+				ref[k] = v
+			}
+			return true
+		}
+		if !put() {
+			return
+		}
+		prog = append(prog, fmt.Sprintf("open (1 KiB segments); %d x put; close", nk))
+		if err := db.Close(); err != nil {
+			return
+		}
+		if err := t.Rename("lg/00000-1.psg", "lg/00000.psg"); err != nil {
+			return
+		}
+		if err := t.Rename("lg/00000-1.psg.pmt", "lg/00000.psg.pmt"); err != nil {
+			return
+		}
+		prog = append(prog, "rename 00000-1.psg -> 00000.psg, 00000-1.psg.pmt -> 00000.psg.pmt (the names of pogreb 0.9.x)")
+		db, err = pogreb.Open("lg", mk())
+		if err != nil {
+			fail("open", err.Error())
+			return
+		}
+		// every file of the directory is accounted for
+		audit := func(when string, closed bool) bool {
+			live := map[string]bool{}
+			files := map[string]bool{}
+			for _, nm := range t.List("lg") {
+				files[nm] = true
+			}
+			if !closed {
+				for _, sg := range pogreb.VerifSegments(db) {
+					live[sg.Name] = true
+				}
+			}
+			var stray []string
+			for nm := range files {
+				switch {
+				case nm == "main.pix" || nm == "overflow.pix" || nm == "index.pmt" || nm == "db.pmt" || nm == "lock":
+				case strings.HasSuffix(nm, ".psg.pmt"):
+					if !files[strings.TrimSuffix(nm, ".pmt")] {
+						stray = append(stray, nm+" (side file of no segment)")
+					}
+				case strings.HasSuffix(nm, ".psg"):
+					if !closed && !live[nm] {
+						stray = append(stray, nm+" (not a live segment)")
+					}
+					if closed && !files[nm+".pmt"] {
+						stray = append(stray, nm+" (closed without its side file)")
+					}
+				default:
+					stray = append(stray, nm)
+				}
+			}
+			sort.Strings(stray)
+			if len(stray) > 0 {
+				fail(when, "files that belong to nothing: "+strings.Join(stray, ", "))
+				return false
+			}
+			return true
+		}
+		same := func(when string) bool {
+			if int(db.Count()) != len(ref) {
+				fail(when, fmt.Sprintf("Count() = %d, want %d", db.Count(), len(ref)))
+				return false
+			}
+			for k, v := range ref {
+				if got, err := db.Get([]byte(k)); err != nil || string(got) != v {
+					fail(when, fmt.Sprintf("Get(%s) = %q, %v", k, clip(string(got)), err))
+					return false
+				}
+			}
+			return true
+		}
+		if !same("after the reopen") || !audit("after the reopen", false) {
+			db.Close()
+			return
+		}
+		if !put() || !put() {
+			db.Close()
+			return
+		}
+		cr, err := db.Compact()
+		prog = append(prog, "open; overwrite every key twice; compact")
+		if err != nil || cr.CompactedSegments == 0 {
+			fail("compact", fmt.Sprintf("Compact = %+v, %v", cr, err))
+			db.Close()
+			return
+		}
+		res.Tags["legacy_named_segment_compacted"]++
+		if !audit("after Compact", false) || !same("after Compact") {
+			db.Close()
+			return
+		}
+		if err := db.Sync(); err != nil {
+			fail("sync", err.Error())
+		}
+		if err := db.Close(); err != nil {
+			fail("close", err.Error())
+			return
+		}
+		prog = append(prog, "close; open")
+		if !audit("after Close", true) {
+			return
+		}
+		db, err = pogreb.Open("lg", mk())
+		if err != nil {
+			fail("open", err.Error())
+			return
+		}
+		ok := same("after the restart") && audit("after the restart", false)
+		if ok && put() {
+			_, _ = db.Compact()
+			_ = audit("after the second Compact", false) && same("after the second Compact")
+		}
+		_ = db.Close()
+		res.Cases++
+		if len(res.Findings) > 0 {
+			return
+		}
+	}
 }
